@@ -362,10 +362,10 @@ def lines_sent(ops):
 def run(ctx, V):
     import pmcheck
     proofs_ok = vlib.proof_gate(ctx, V, extract=["Extract/ExClient.vo", "Extract/ExEnqueue.vo"])
-    correspond(ctx, V, n=320 if ctx.tier == "quick" else 8000)
+    correspond(ctx, V, n=320 if ctx.tier == "quick" else 4000)
     # whole daemon under ASan/UBSan with hostile client input
     exe = pmsim.build(ctx)
-    n = 260 if ctx.tier == "quick" else 10000
+    n = 260 if ctx.tier == "quick" else 4000
     scs = [hostile_scenario(ctx.rng) for _ in range(n)]
     pmcheck.MONITORS["c06lines"] = mon_c06_lines
     pmcheck.run_batch(ctx, V, exe, scs, ["alive", "protocol", "wedge", "c06lines"], "c06")
